@@ -177,7 +177,7 @@ def run(ctx):
     core.build_harness(bins=["solve"])
     rng = ctx.rng
     progs = list(ag.corpus())
-    for _ in range(ctx.n(40, 800)):
+    for _ in range(ctx.n(40, 400)):
         progs.append(ag.gen_program(rng))
     work = []
     for p in progs:
@@ -229,7 +229,7 @@ def run(ctx):
                     exprs.append(([pname], logic.ob("eval_atom %d (assoc_clauses %s) [] (%s %d%%N %s %s)" % (
                         FE, pname, pred, g.a, X, sx.to_coq(ag.ty_model(p, alt))))))
                     emeta.append((w, gi, "alt"))
-    codes, fail = logic.coq_codes(ctx.work, "assoc", defs, exprs, shard=max(30, len(exprs) // 14 + 1), imports=IMPORTS, timeout=1200)
+    codes, fail = logic.coq_codes(ctx.work, "assoc", defs, exprs, shard=max(40, len(exprs) // 8 + 1), imports=IMPORTS, timeout=1200)
     if fail:
         raise core.CheckFailure("coq evaluation failed: %s" % (fail[0],))
     info = collections.defaultdict(dict)
